@@ -327,7 +327,7 @@ def _fmt(t, depth=0):
     return str(t[0])
 
 
-def agreement(chk, prog, config="default"):
+def agreement(chk, prog, config="default", alignment_clauses=True):
     alloc_k = prog.seed_n.get("gc_ptr::GcPtr::alloc")
     slots, inits = prog.vtable_slots()
     from gcv import rules_prims
@@ -447,9 +447,10 @@ def agreement(chk, prog, config="default"):
                      sample={"header_address": _fmt(v)})
         except (interp.Unmodelled, interp.InterpError) as e:
             chk.inst("header-offset-agreement", "gc_ptr::GcPtr::header[%s]" % config, False, detail="could not be analysed: %s" % e)
-    # prefix_header_layout returns Layout::extend unmodified
+    # prefix_header_layout returns Layout::extend unmodified (what makes the value aligned and disjoint from the header:
+    # C17's clause; request / release agreement - C04 - does not depend on it)
     pk = prog.seed_n.get("gc_ptr::prefix_header_layout")
-    if chk.anchor("gc_ptr::prefix_header_layout", bool(pk)):
+    if alignment_clauses and chk.anchor("gc_ptr::prefix_header_layout", bool(pk)):
         def extend(ip_, st, args, info):
             args = [ip_.read(st, a[1], a[2]) if (isinstance(a, tuple) and a and a[0] == "ref") else a for a in args]
             s2 = st.fork()
